@@ -133,10 +133,18 @@ theorem reorderList_forward_chain (k : Kernel) (e : Nat) (l : List Nat) (h : k.r
         have hne : (acc.length != (k.hfsOf (heOf e 0)).length) = false := by simp [hlen]
         have hne' : ((k.hfsOf (heOf e 0)).length != (k.hfsOf (heOf e 0)).length) = false := by simp
         rw [hlen] at h
-        simp only [hne', Bool.false_eq_true, if_false, hlen, beq_self_eq_true, if_true, Option.some.injEq] at h
-        subst h
-        have := walkFwd_chain k (heOf e 0) start _ _ start [] acc (by exact trivial) hw
-        exact ⟨this.1, hlen⟩
+        simp only [hne', Bool.false_eq_true, if_false, hlen, beq_self_eq_true, Bool.true_and] at h
+        split at h
+        · simp only [Option.some.injEq] at h
+          subst h
+          have := walkFwd_chain k (heOf e 0) start _ _ start [] acc (by exact trivial) hw
+          exact ⟨this.1, hlen⟩
+        · cases h
+
+/-- whatever `reorder` stores is a permutation of what the cache held before (since bf387da: the walk can
+    visit a halfface twice in a non-manifold configuration; such an order is not stored) -/
+theorem reorder_stores_permutation (k : Kernel) (e : Nat) (l : List Nat) (h : k.reorderList e = some l) :
+    l.Perm (k.hfsOf (heOf e 0)) := reorderList_perm k e l h
 
 example :
     let k : Kernel := { incHfs := [[4, 2, 0], [5, 1, 3]], eBU := true }
